@@ -157,6 +157,22 @@ func runC09(c *Ctx) {
 					}
 					continue
 				}
+				// (e) whole elements of a slice/array of library structures (reordering or replacing entries of a
+				// shared table: the backing array is shared even when the slice header was passed by value)
+				if ia, ok := st.Addr.(*ssa.IndexAddr); ok {
+					if en, _ := structOf(st.Val.Type()); en != nil && en.Obj().Pkg() != nil && isRepoPath(en.Obj().Pkg().Path()) && perRequestTypes[typeFullName(en)] == "" {
+						base := ia.X
+						if ld, isLd := derefLoad(base); isLd {
+							if _, isAl := ld.(*ssa.Alloc); !isAl {
+								base = nil // loaded from a field/global: not fresh
+							}
+						}
+						nWrites++
+						okE := base != nil && isFresh(fn, base)
+						c.obI("R09.1", st, "element-write-"+typeFullName(en), okE, "request-reachable code never replaces or reorders the entries of a shared table (a slice received from a caller or held in a structure shares its backing array with every other request)", "store of a whole "+typeFullName(en)+" into an element of a slice that was not made in this function")
+						continue
+					}
+				}
 				root, rootT, immT, field := chainRoot(st.Addr)
 				if immT == nil || immT.Obj().Pkg() == nil || !isRepoPath(immT.Obj().Pkg().Path()) {
 					continue
@@ -399,6 +415,17 @@ type memo struct {
 }
 
 func ruleR09_45(c *Ctx) {
+	// ResetAuth clears the security keys and nothing else (the other memoised stage results of the request stay valid)
+	{
+		ra := c.P.Fn("(*rt/middleware.Context).ResetAuth")
+		sec := map[int64]bool{int64Const(c.P, "rt/middleware", "ctxSecurityPrincipal"): true, int64Const(c.P, "rt/middleware", "ctxSecurityScopes"): true}
+		n := 0
+		for call, k := range withValueCalls(ra, "rt/middleware.contextKey") {
+			n++
+			c.obI("R09.4", call, "reset-only-security-keys", sec[k], "ResetAuth overwrites only the principal and scopes keys: the route, content type, response format and bound parameters memoised for the request stay (a body consumed once is not bound again)", fmt.Sprintf("ResetAuth overwrites context key %d", k))
+		}
+		c.obF("R09.4", ra, "reset-writes", n == 2, "ResetAuth overwrites the two security keys", fmt.Sprintf("%d writes", n))
+	}
 	p := c.P
 	memos := []memo{
 		{"(*rt/middleware.Context).ContentType", "ctxContentType", []string{"rt.ContentType"}, 2, 0},
